@@ -264,7 +264,9 @@ def main():
     chk.rule = ('(a) ALL strings of length <= %d over the Part 21 punctuation alphabet %r, each followed by "," and by ")", read by STEPattribute::STEPread for '
                 '%d attribute kinds, and as the body of an instance read by STEPfile; (b) all single grammar-aware mutations of the conforming default population of '
                 'each kind entity: token delete/duplicate/swap at every token, every token stretched to %s, parentheses nested to 2/64/1000/100000, truncation at '
-                'every byte offset, header mutations, oversized and illegal complex instances, the same as working-session files; all on ASan+UBSan builds; '
+                'every byte offset, header mutations, every comment body up to length 3 (thorough 5) over {* / c blank} cut off by the end of the file and closed at four places, '
+                'a repeated instance name (same record / other values / other entity) as exchange file and as working-session file under all 16 state pairs, '
+                'oversized and illegal complex instances, the same as working-session files; all on ASan+UBSan builds; '
                 'state = distinct byte string per seam; oracle = no sanitizer report, no signal, no hang' % (L, ALPHA, len(kinds), STRETCH))
     chk.assumptions = ['ASan/UBSan (gcc 12) detect the invalid accesses; leaks are not judged', 'time proportionality is checked by the coarse doubling rule only']
     fam = smodel.family_K('fk', pairs='core')
@@ -304,6 +306,28 @@ def main():
     for pe in ('p_inte_stri', 'p_list_str_ref', 'p_seldef_list_int', 'o_list_str', 'o_seldef'):
         for c in mutations(sp, pe, args.tier):
             cases.append(c)
+    # the same instance name twice: same record, other values, other entity - as exchange file and as working-session file under every pair of
+    # state letters (the second pass treats a repeated name differently in the two file types)
+    for e in sp.entities():
+        if not e.name.startswith('e_') or e.abstract or e.name.endswith(('enum2', 'seldef2')):
+            continue            # (renamed enumeration/select attribute types crash on their own: C01 known finding; a failing base is not explored further)
+        base = sp.base(e.name)
+        E = e.name.upper()
+        good = smodel.inst_text(10, E, base)
+        alt = smodel.inst_text(10, E, [sp.lits.alts(a.type)[-1] for _, a, _ in sp.s.p21_attrs(e.name)])
+        for nm, second in (('same', good), ('other-values', alt), ('other-entity', '#10=TGT(5);')):
+            for first in (good, alt):
+                if first == second and nm != 'same':
+                    continue
+                cases.append({'ent': e.name, 'cls': 'duplicate-name', 'detail': nm, 'text': sp.file([first, second])})
+                for st1 in 'CIND':
+                    for st2 in 'CIND':
+                        t = sp.file([first, second]).replace('ISO-10303-21;', 'STEP_WORKING_SESSION;', 1).replace('END-ISO-10303-21;', 'END-STEP_WORKING_SESSION;')
+                        t = re.sub(r'^#(?!10=)', 'C#', t, flags=re.M)
+                        t = t.replace('#10=', st1 + '#10=', 1)
+                        i = t.index('#10=', t.index('#10=') + 4)
+                        t = t[:i] + st2 + t[i:]
+                        cases.append({'ent': e.name, 'cls': 'ws-duplicate-name', 'detail': '%s/%s%s' % (nm, st1, st2), 'text': t, 'ws': True})
     cases += list(header_mutations(sp))
     # working-session variants of the token mutations of two kinds
     for kind in ('inte', 'list_str', 'seldef'):
